@@ -189,4 +189,35 @@ def suite_msg(ctx):
     return s
 
 
-SUITES = [suite_msg]
+def suite_threads(ctx):
+    """identifiers resolve to exactly one service and parsing stays total whatever another thread is doing: a user-defined service (the library looks services up
+    over all BaseService subclasses, user-defined ones included) is slow to tell its identifier to one thread; while that thread is inside its lookup, the
+    frames of every library service are parsed by another thread.  Runs in a child process (harness/threads_child.py)."""
+    import json
+    import os
+    import subprocess
+    import sys as _sys
+    s = Suite('threads')
+    env = dict(os.environ, UDS_REPO=core.REPO)
+    child = os.path.join(os.path.dirname(os.path.dirname(os.path.abspath(__file__))), 'threads_child.py')
+    for run in range(ctx.n(2, 6)):
+        p = subprocess.run([_sys.executable, child], stdout=subprocess.PIPE, stderr=subprocess.PIPE, text=True, env=env, timeout=120)
+        s.evaluations += 1
+        s.distinct.add('run%d' % run)
+        try:
+            problems = json.loads(p.stdout.strip().split('\n')[-1])
+        except Exception:  # noqa
+            s.fail({'site': 'lookup while another thread parses', 'input': 'threads_child.py run %d' % run, 'observed': 'child failed: ' + (p.stderr or p.stdout)[-600:],
+                    'required': 'every frame of every service parsed as before'})
+            continue
+        for pr in problems:
+            if pr.get('setup'):
+                s.notes.append(pr['observed'])
+                continue
+            s.fail({'site': 'lookup while another thread parses', 'input': '%s: frame %s' % (pr['when'], pr['frame']), 'observed': pr['observed'], 'required': pr['required']})
+        s.count('runs')
+    s.sample({'child': 'threads_child.py', 'problems': 0 if not s.spec_failures else len(s.spec_failures)})
+    return s
+
+
+SUITES = [suite_msg, suite_threads]
